@@ -9,6 +9,7 @@ import (
 	"github.com/orda-io/orda/client/pkg/types"
 	"github.com/orda-io/orda/client/pkg/utils"
 	"reflect"
+	"sort"
 	"strconv"
 	"strings"
 )
@@ -416,10 +417,12 @@ func (its *jsonPrimitive) createJSONObject(parent jsonType, value interface{}, t
 	fields := reflect.TypeOf(value)
 
 	if target.Kind() == reflect.Map {
-		mapValue := value.(map[string]interface{})
-		for k, v := range mapValue {
-			val := reflect.ValueOf(v)
-			its.addValueToJSONObject(jo, k, val, ts)
+		// Identifiers of the members are assigned along this traversal, so every replica has to walk
+		// the keys in the same order (Go randomizes map iteration); any map type with string-like keys works.
+		keys := target.MapKeys()
+		sort.Slice(keys, func(i, j int) bool { return fmt.Sprint(keys[i].Interface()) < fmt.Sprint(keys[j].Interface()) })
+		for _, k := range keys {
+			its.addValueToJSONObject(jo, fmt.Sprint(k.Interface()), target.MapIndex(k), ts)
 		}
 	} else { // reflect.Struct
 		for i := 0; i < target.NumField(); i++ {
